@@ -133,6 +133,9 @@ func (r *run) dispatch(e Ev) {
 		a := r.actor(e.A)
 		if d := a.dt(e.D); d != nil {
 			n := 100 + mod(e.N, 150)
+			if e.N >= 1000 {
+				n = e.N // a very long offline period: more than a thousand operations for the others to pull
+			}
 			for i := 0; i < n; i++ {
 				b := Ev{T: "local", A: e.A, D: e.D, Op: []string{"put", "ins", "dput", "dins"}[i%4], K: fmt.Sprintf("b%d", i%7), Pos: i % 5, Delta: int32(i + 1), V: []interface{}{float64(i)}}
 				r.local(a, d, apiOf(d.pub), b)
